@@ -358,6 +358,11 @@ def realnet_stalls(chk):
     return cases, descs
 
 
+def _pair_job(job):
+    role, script, how = job
+    return run_pair(role, script, how, True)
+
+
 def run(chk):
     quick = chk.tier == 'quick'
     rnd = random.Random(chk.seed * 41 + 3)
@@ -395,14 +400,16 @@ def run(chk):
     chk.sample({'part': 'scripted works', 'pending': traces[0]['pending'], 'steps': [(s['act'], s['site']) for s in traces[0]['steps']],
                 'last_observation': traces[0]['steps'][-1]['obs']})
     # ---- (ii) real handler stack -----------------------------------------------------------------------------------
+    from harness.common import pmap
     alone = {}
     cases, descs = [], {}
-    for desc, role, script, how in adversaries(rnd, quick):
-        if role not in alone:
-            alone[role] = run_pair(role, [], 'accept', False)
-            if not alone[role][2] or not alone[role][0]['cgot']:
-                raise MachineryError('canary does not complete alone in role %s' % role)
-        res, after, alive, err = run_pair(role, script, how, True)
+    advs = adversaries(rnd, quick)
+    for role in sorted({a[1] for a in advs}):
+        alone[role] = run_pair(role, [], 'accept', False)
+        if not alone[role][2] or not alone[role][0]['cgot']:
+            raise MachineryError('canary does not complete alone in role %s' % role)
+    outcomes = pmap(_pair_job, [(role, script, how) for _d, role, script, how in advs], chunksize=4)
+    for (desc, role, script, how), (res, after, alive, err) in zip(advs, outcomes):
         cid = len(cases) + 1
         cases.append({'id': cid, 'alone': alone[role][0], 'with': res, 'after': after, 'alive': alive, 'err': err})
         descs[cid] = {'adversary': desc, 'role': role, 'script': [list(map(lambda x: x.decode('latin1')[:60] if isinstance(x, bytes) else x, s)) for s in script]}
